@@ -162,7 +162,7 @@ def _rand_op(rng, classes_ok, npool=0):
     if t < 0.97 or not npool:
         name = rng.choice(METHODS)
         return ['prop', name, rng.randrange(gen_ptype.n_variants('prop', name))]
-    return ['fresh', rng.choice(WTYPES), rng.choice(BODIES), rng.randrange(2)]
+    return ['fresh', rng.choice(WTYPES), rng.choice(BODIES), rng.randrange(8)]
 
 
 def generate(rng, tier):
@@ -221,7 +221,7 @@ def generate(rng, tier):
             for mism in ((False, True) if kind != 'prop' else (False,)):
                 n += 1
                 yield routes(dict(regime(n, kind != 'prop' or w == 'none', mism), op='program', start=w, body=b,
-                                  sv=n % 2, pool=[], ops=[mk(kind, name, clip, po, mism)]), n)
+                                  sv=n % 8, pool=[], ops=[mk(kind, name, clip, po, mism)]), n)
     # 2. every plane kind as ONE long-lived object used on wavefronts of two different types (both orders),
     #    directly, through copy(), and once more on the first type
     for kind, name, clip, po in planes:
@@ -234,7 +234,7 @@ def generate(rng, tier):
                 for cp in (False, True):
                     n += 1
                     yield routes(dict(regime(n, True), op='program', start=w1, body='plain', pool=[mk(kind, name, clip, po)],
-                                      ops=[['pool', 0, False], ['fresh', w2, rng.choice(BODIES), rng.randrange(2)],
+                                      ops=[['pool', 0, False], ['fresh', w2, rng.choice(BODIES), rng.randrange(8)],
                                            ['pool', 0, cp], ['fresh', w1, 'plain', 0], ['pool', 0, cp]]), n)
     # 3. every two-step program over the claimed operations (thorough), a sample of them (quick)
     claimed = [o for o in all_ops if o[1] not in BROKEN]
@@ -265,7 +265,7 @@ def generate(rng, tier):
                 ops.insert(rng.randrange(1, len(ops) + 1), ['back', rng.randint(1, 3)])
         t = rng.random()
         yield routes(dict(regime(rng.randrange(6)), op='program', start=rng.choice(WTYPES),
-                          body='tilted' if t < 0.2 else 'empty' if t < 0.3 else 'plain', sv=rng.randrange(2),
+                          body='tilted' if t < 0.2 else 'empty' if t < 0.3 else 'plain', sv=rng.randrange(8),
                           pool=pool, ops=ops))
 
 
